@@ -29,7 +29,7 @@ B = [
   "\tif storage.Get(ctx, append([]byte{deletedKeyPrefix}, []byte(containerID)...)) != nil {\n\t\tpanic(cst.ErrorDeleted)\n\t}\n",
   "\tif name == \"\" && storage.Get(ctx, append([]byte{deletedKeyPrefix}, []byte(containerID)...)) != nil {\n\t\tpanic(cst.ErrorDeleted)\n\t}\n"),
  ("C05", "container-fee-skips-first-node", "contracts/container/contract.go",
-  "\tfor _, node := range alphabet {\n\t\tto := contract.CreateStandardAccount(node)\n", "\tfor _, node := range alphabet[1:] {\n\t\tto := contract.CreateStandardAccount(node)\n"),
+  "\tfor _, node := range alphabet {\n\t\tto := contract.CreateStandardAccount(node)\n", "\tfor i, node := range alphabet {\n\t\tif i == 0 && len(alphabet) > 1 {\n\t\t\tcontinue\n\t\t}\n\t\tto := contract.CreateStandardAccount(node)\n"),
  ("C05", "container-alias-fee-not-charged", "contracts/container/contract.go",
   "\t\tcontainerFee += aliasFee\n", "\t\tcontainerFee += aliasFee * 0\n"),
  ("C14", "container-nodes-of-vector-zero", "contracts/container/contract.go",
@@ -72,8 +72,8 @@ B = [
   "\tif admin != nil && !runtime.CheckWitness(admin) {\n\t\tpanic(\"not witnessed by admin\")\n\t}\n", ""),
  ("C12", "nns-fifteen-records", "contracts/nns/contract.go",
   "\tif id > maxRecordID {\n", "\tif id >= maxRecordID {\n"),
- ("C12", "nns-three-redirects", "contracts/nns/contract.go",
-  "\treturn resolve(ctx, []string{}, name, typ, 2)\n", "\treturn resolve(ctx, []string{}, name, typ, 3)\n"),
+ ("C12", "nns-four-redirects", "contracts/nns/contract.go",
+  "\treturn resolve(ctx, []string{}, name, typ, 2)\n", "\treturn resolve(ctx, []string{}, name, typ, 4)\n"),
  ("C12", "nns-delete-keeps-serial", "contracts/nns/contract.go",
   "\t\tr := iterator.Value(records).(string)\n\t\tstorage.Delete(ctx, r)\n\t}\n\tupdateSoaSerial(ctx, tokenID)\n", "\t\tr := iterator.Value(records).(string)\n\t\tstorage.Delete(ctx, r)\n\t}\n"),
  ("C18", "nns-label-64", "contracts/nns/contract.go",
